@@ -394,6 +394,15 @@ class Exec:
         yield st, None
 
     def st_Assign(self, s, st, fi, c):
+        if isinstance(s.value, ast.List) and not s.value.elts and \
+                len(s.targets) == 1 and isinstance(s.targets[0], ast.Name):
+            # `x = []`: the element kind is declared by the contract
+            kind = self.contracts.empty_hints.get((fi.qual,
+                                                   s.targets[0].id))
+            st.env[s.targets[0].id] = lift_ilist([]) if kind == 'ilist' \
+                else TokList([])
+            yield st, None
+            return
         for st1, v in self.ev(s.value, st, fi):
             sts = [st1]
             for tgt in s.targets:
@@ -1399,9 +1408,6 @@ class Exec:
 
     def make_list(self, vals, st, line):
         if not vals:
-            hint = self.contracts.empty_list_kind(self.cur_func, line)
-            if hint == 'ilist':
-                return lift_ilist([])
             return TokList([])
         if all(is_int(v) and not is_bool(v) for v in vals):
             return lift_ilist(vals)
